@@ -167,3 +167,26 @@ func dumpSkiplist(sl *skiplist.Skiplist, key func(unsafe.Pointer) string, isLive
 	}
 	return out
 }
+
+// linkedAtLevel0 reports whether node n is reachable from head at level 0
+// (non-yielding walk). After a successful Delete has returned its node must
+// not be: skiplist iterators do not look at the mark of the node they step
+// onto, so a scan starting now would return the deleted item (C15).
+func linkedAtLevel0(sl *skiplist.Skiplist, n *skiplist.Node, isLive func(unsafe.Pointer) bool) bool {
+	tail := sl.TailNode()
+	steps := 0
+	for c, _ := sl.HeadNode().VerifNext(0); c != nil && c != tail; {
+		if c == n {
+			return true
+		}
+		if isLive != nil && !isLive(unsafe.Pointer(c)) {
+			return false
+		}
+		steps++
+		if steps > 1<<20 {
+			return false
+		}
+		c, _ = c.VerifNext(0)
+	}
+	return false
+}
